@@ -16,7 +16,7 @@ LEVEL = 'exploration'
 JOBS = {'quick': 4, 'thorough': 16}
 REQUIRED_MONITORS = ('trace_checked', 'metropolis_direct', 'acceptance_draw_observed', 'ring_moves_checked')
 REQUIRED_CLASSES = ('types:(0,)', 'types:(1,)', 'types:(2,)', 'types:(0, 1, 2)', 'types:(0, 1)', 'budget:1', 'budget:2',
-                    'budget:>=100', 'restraints:none', 'restraints:partial', 'restraints:all-fixed', 'worse-accepted',
+                    'budget:>=100', 'restraints:none', 'restraints:partial', 'restraints:all-fixed', 'restraints:mobile-in-order', 'worse-accepted',
                     'worse-rejected', 'improved', 'units:small', 'units:large', 'proposal:non-finite-measure', 'proposal:translation', 'proposal:rotation', 'proposal:atom-move')
 RULE = ('runs of minimize_molecules over (mobile molecule: random tree / cyclic graph 1..25 atoms) x (fixed set 1..40 points) '
         'x deformation-type subset x step budget {1,2,3,10,100,2000, random} x restraint class x seed. Every step of every run '
@@ -61,6 +61,10 @@ def gen_restraints(rng, cls, nf, nm):
         return []
     if cls == 'all-fixed':
         return [(i, int(rng.integers(0, nm))) for i in range(nf)]
+    if cls == 'mobile-in-order':
+        # every mobile atom restrained once, listed in the order of the mobile atoms (a consecutive run of mobile indices)
+        lo = 0 if rng.random() < 0.6 else int(rng.integers(0, max(1, nm - 1)))
+        return [(int(rng.integers(0, nf)), j) for j in range(lo, nm)]
     k = int(rng.integers(1, max(2, nf)))
     pairs = {(int(i), int(rng.integers(0, nm))) for i in rng.choice(nf, min(k, nf), replace=False)}
     if len({i for i, _ in pairs}) == nf and nf > 1:
@@ -104,7 +108,7 @@ def run_run(ctx, case):
     mob = gen.make_molecule('MOB', gen.atom_names(nm, 'B'), edges, pos)
     nf = int(rng.integers(1, 41))
     fixed = gen.random_positions(rng, nf) + rng.normal(size=3) * rng.choice([0.0, 0.5, 3.0])
-    rcls = ['none', 'partial', 'all-fixed'][int(rng.integers(0, 3))]
+    rcls = ['none', 'partial', 'all-fixed', 'mobile-in-order'][int(rng.integers(0, 4))]
     restr = gen_restraints(rng, rcls, nf, nm)
     big_ok = ctx.tier == 'thorough' or i % 40 == 0
     budget = BUDGETS[(i // len(TYPES)) % len(BUDGETS)] if rng.random() < 0.7 else int(rng.integers(1, 2001 if big_ok else 120))
